@@ -4,7 +4,10 @@ package main
 import (
 	"bytes"
 	"encoding/binary"
+	"errors"
 	"fmt"
+	"github.com/lindb/lindb/kv/table"
+	"github.com/lindb/lindb/pkg/bufioutil"
 	"os"
 	"path"
 	"path/filepath"
@@ -189,6 +192,26 @@ func (e *dbEnv) flush() {
 	if err := e.shard.FlushIndex(); err != nil {
 		vevid.OpFailed("FlushIndex: %v", err)
 	}
+}
+
+// flushFailing runs the flush procedure while the k-th table file of it cannot be created (a full disk, a permission
+// problem): the flush fails and is repeated later. injected reports whether the flush got as far as the k-th file.
+func (e *dbEnv) flushFailing(k int) (injected bool, err error) {
+	old := table.VerifGetSeams()
+	n := 0
+	table.VerifSetSeams(table.VerifSeams{NewBufioWriter: func(fileName string) (bufioutil.BufioWriter, error) {
+		n++
+		if n == k {
+			injected = true
+			return nil, errors.New("injected: the table file cannot be created")
+		}
+		return old.NewBufioWriter(fileName)
+	}})
+	defer table.VerifSetSeams(table.VerifSeams{NewBufioWriter: old.NewBufioWriter})
+	if err = e.db.FlushMeta(); err == nil {
+		err = e.shard.FlushIndex()
+	}
+	return injected, err
 }
 
 func (e *dbEnv) stores() (indexStore, metaStore kv.Store) {
